@@ -125,7 +125,7 @@ func signBLSOn[
 	E algebra.MultiplicativeGroupElement[E], S algebra.PrimeFieldElement[S],
 ](d *blsDesc[PK, PKFE, SG, SGFE, E, S], r, vi int) {
 	for mi, mode := range blsModes {
-		for _, it := range planCheap(vi*3 + mi + r) {
+		for _, it := range planCheap(vi*3+mi+r, []int{(vi + mi + int(seed)) % 2}) {
 			msgClass := []string{"short", "kib", "short", "kib", "empty"}[(it.pi+it.qi+r+mi)%5]
 			name := fmt.Sprintf("sign:bls:%s-%s:%s:%s", d.name, mode.name, it.np.Name, it.q.kind)
 			if !takeCase(name) {
@@ -149,6 +149,10 @@ func blsLine[
 	}
 	msg := msgOf(msgClass)
 	ctxs := sessions(q.ids)
+	as, err := np.Pol.Build()
+	if err != nil {
+		panic(err)
+	}
 	shards := map[ID]*boldyreva02.Shard[PK, PKFE, SG, SGFE, E, S]{}
 	for _, id := range holders(np.Pol) {
 		sh, err := d.shard(km.shards[id])
@@ -202,9 +206,15 @@ func blsLine[
 		}
 		return m.Freeze()
 	}
-	// every cosigner's public material yields an aggregator; all must produce the same signature
+	// every cosigner's public material yields an aggregator (quick tier: the first and the last member's); all must produce the
+	// same signature
 	var first *bls.Signature[SG, SGFE, PK, PKFE, E, S]
-	for _, id := range q.ids {
+	aggIDs := q.ids
+	if !thor && len(aggIDs) > 2 {
+		aggIDs = []ID{q.ids[0], q.ids[len(q.ids)-1]}
+	}
+	ev["nAgg"] = len(aggIDs)
+	for _, id := range aggIDs {
 		who := fmt.Sprintf("agg:%d", id)
 		a, err := d.aggr(shards[id].PublicKeyMaterial(), alg)
 		if err != nil {
@@ -237,7 +247,9 @@ func blsLine[
 	subs := []any{}
 	if a, err := d.aggr(shards[outsider].PublicKeyMaterial(), alg); err == nil {
 		for _, s := range subsetsOf(sortedIDs(q.ids)) {
-			if len(s) == len(q.ids) {
+			// an unqualified sub-collection is refused before any pairing is computed; of the qualified ones (each costs the
+			// verification of all its members) those that drop exactly one member are tried
+			if len(s) == len(q.ids) || (as.IsQualified(s...) && len(s) != len(q.ids)-1) {
 				continue
 			}
 			sig, err := a.Aggregate(toMap(s), msg)
